@@ -14,6 +14,10 @@ CLAIMED = {
  'C08': dict(tech="TLC: exhaustive spec theorems (sequence model = modular arithmetic, algebraic laws, frame conditions) + TLC trace validation of all operand pairs of widths <= 4/6 under every operator, every index expression, every single and two-step mutation, random mutation histories, wide samples",
              text="Finite space enumerated completely: all operand pairs of widths 0..4 (quick) / 0..6 (thorough) in Bits/Bits, Bits/int and int/Bits forms under & | ^ + - * // hd, all unary ops, shifts, rotations, splits, extensions; every int/slice/list index expression on widths <= 4/5 read and written with fitting values; every two-step mutation history on widths <= 2/3 (hidden mask state) and seeded longer histories with aliasing checks; widths to 2048 sampled.  TLC judges each event against base/BitVec.",
              ref="DESIGN.md section 7 C08"),
+
+ 'C16': dict(tech="TLC: spec laws of the coefficient-vector model (MC_PolyVec) + TLC trace validation of all vector pairs of dims 0..4 over Z/2^k (k=1,2,3) under every operator, all index expressions, re-chunking/packing, sampled rings k in {0,8,32,64}",
+             text="All vector pairs of dims 0..4 (k=1), 0..3/4 (k=2), 0..2 (k=3) under + - ^ & | in both orders, neg, a+(-a), shifts, concat; every int/slice/list index read and written on dims <= 4/5; split for k in {8,16,32,64} and every divisor, both endiannesses; pack; rings Z, 2^8, 2^32, 2^64 with dims to 20 sampled.  Each recorded event is judged by TLC against base/PolyVec, whose laws (commutativity, a+(-a)=0, agreement with integer arithmetic, frame condition) are model-checked exhaustively on small instances.",
+             ref="DESIGN.md section 7 C16"),
 }
 PENDING = "check not built yet in this tree (specification modules are being written; see DESIGN.md section 12 build order) - not claimed until its quick command runs clean"
 def main():
